@@ -62,7 +62,7 @@ Definition mark_done_with (rd : h1conn -> kres) (server isreq : bool) (c : h1con
       | Some rq, Some rs =>
           if should_make_pipe rq rs then
             (set_c_buf [] (set_c_state HPipe c),
-             if isnil (c_buf c) then [] else [KRecv (sid_of c) (if server then EReqData [] else ERespData [])])
+             if isnil (c_buf c) then [] else [KRecv (sid_of c) (if server then EReqData [x00] else ERespData [x00])])
           else if is_eof (resp_expected rq rs) || h_close rq || h_close rs
           then (set_c_state HDone c, [KClose false])
           else
@@ -443,7 +443,7 @@ Inductive op := ODataC (t : list tok) | ODataS (k : N) (t : list tok) | OCloseC 
 
 Definition feed (server : bool) (t : list tok) (c : h1conn) : kres :=
   match c_state c with
-  | HPipe => (c, [KRecv (sid_of c) (if server then EReqData [] else ERespData [])])
+  | HPipe => (c, [KRecv (sid_of c) (if server then EReqData [x00] else ERespData [x00])])
   | _ => let c1 := set_c_buf (c_buf c ++ t) c in h1_read (read_fuel c1) server c1
   end.
 
